@@ -668,6 +668,21 @@ def _k_alias(family, case, disc):
     return False
 
 
+@known.finding("C14/multiindex-object-level-with-null-seen-as-float64")
+def _k_multiindex_object_null(family, case, disc):
+    """An object MultiIndex level holding ints and a null is inferred as `object`, but validation reads the level back
+    through get_level_values(), which pandas returns as float64 -> the inferred schema rejects its own data."""
+    if not disc.kind.startswith("inferred-schema-rejects-own-data:WRONG_DATATYPE:"):
+        return False
+    if len(case.get("index") or []) < 2:
+        return False
+    msg = str(disc.detail.get("message"))
+    trigger = any(c["kind"] == "object" and B.has_null(c) and _nonnull(c)
+                  and all(isinstance(x, (int, float)) and not isinstance(x, bool) for x in _nonnull(c))
+                  for c in (case.get("index") or []))
+    return trigger and "to have type object, got float64" in msg
+
+
 @known.finding("C14/int-bounds-through-float")
 def _k_int_float(family, case, disc):
     if not disc.kind.startswith("bound-not-tight-exact:") or disc.kind.split(":")[-1] not in ("int", "object"):
